@@ -408,7 +408,7 @@ func init() {
 		Streams: []Stream{
 			{Name: "magnitude", Setup: c09Setup, N: c09MagN, Run: c09Mag, Exhaustive: true},
 			{Name: "scaling", N: func(c *Ctx) int { return len(c09Scale) }, Run: c09ScaleRun, Exhaustive: true},
-			{Name: "random", N: func(c *Ctx) int { return tierN(c, 20000, 1000000) }, Run: c09Random},
+			{Name: "random", N: func(c *Ctx) int { return tierN(c, 20000, 4000000) }, Run: c09Random},
 		},
 	})
 	assumptions["C09"] = []string{"steps count basic blocks of github.com/woodsbury/jmespath/... only: time spent inside the standard library or decimal128 is visible through the allocation meter and the (inconclusive-only) wall-clock watchdog, not through the step clock", "liveness is restated as bounded progress: a call must finish within its step budget"}
